@@ -129,7 +129,6 @@ def __sync__(
                 reflection_cache_unpacked,
                 database_config_unpacked,
             )
-            DBS = DBS.set(dbname, db)
         else:
             updates = {}
 
@@ -142,13 +141,22 @@ def __sync__(
 
             if updates:
                 db = db._replace(**updates)
-                DBS = DBS.set(dbname, db)
 
+        # Unpickle everything before storing anything: the server only
+        # records the new state as synced if the whole call succeeds, so
+        # a failure here must not leave the worker partially updated.
+        new_global_schema = new_instance_config = None
         if global_schema is not None:
-            GLOBAL_SCHEMA = pickle.loads(global_schema)
-
+            new_global_schema = pickle.loads(global_schema)
         if system_config is not None:
-            INSTANCE_CONFIG = pickle.loads(system_config)
+            new_instance_config = pickle.loads(system_config)
+
+        if DBS.get(dbname) is not db:
+            DBS = DBS.set(dbname, db)
+        if global_schema is not None:
+            GLOBAL_SCHEMA = new_global_schema
+        if system_config is not None:
+            INSTANCE_CONFIG = new_instance_config
 
     except Exception as ex:
         raise state.FailedStateSync(
